@@ -338,7 +338,7 @@ type v14WStream struct {
 	ended      [2]bool
 	blocks     [2]int
 	contFrames [2]int
-	listSize   [2]int64 // RFC 9113 section 6.5.2 size of the first field block of the direction
+	listSize   [2]int64 // RFC 9113 section 6.5.2 size of the largest field block of the direction
 	exhausted  [2]int
 	resumed    [2]int
 	pendingExh [2]bool
@@ -373,14 +373,15 @@ type v14WViol struct {
 // v14Wire is guarded by the pipe's mutex while the pipe is live; the session reads it after
 // both directions have stopped.
 type v14Wire struct {
-	side    [2]v14Side
-	streams map[uint32]*v14WStream
-	viols   []*v14WViol
-	ev      map[string]int64
-	trace   []string
-	goAway  [2]int
-	goCode  [2]uint32
-	onBlock func(d int, st *v14WStream, fields []hpackref.Field) // request blocks: lets the session attribute the stream
+	side            [2]v14Side
+	streams         map[uint32]*v14WStream
+	viols           []*v14WViol
+	ev              map[string]int64
+	trace           []string
+	goAway          [2]int
+	blocksBeforeAck int // client field blocks written before the client acknowledged the server's SETTINGS
+	goCode          [2]uint32
+	onBlock         func(d int, st *v14WStream, fields []hpackref.Field) // request blocks: lets the session attribute the stream
 }
 
 func v14NewWire() *v14Wire {
@@ -669,6 +670,9 @@ func (w *v14Wire) endBlock(d int) {
 	if d == 0 && first {
 		st.beforeAck = me.acks == 0
 	}
+	if d == 0 && me.acks == 0 {
+		w.blocksBeforeAck++
+	}
 	// the table the peer has to provide: the largest size it has advertised and the sender may rely on
 	var allowed int64
 	for j := me.lo; j < len(peer.snaps); j++ {
@@ -706,7 +710,7 @@ func (w *v14Wire) endBlock(d int) {
 			}
 		}
 	}
-	if first {
+	if size > st.listSize[d] {
 		st.listSize[d] = size
 	}
 	w.ev["wire_fields_decoded"] += int64(len(res.Fields))
